@@ -564,7 +564,6 @@ func runC18(c *Ctx) {
 		}
 	}
 
-
 	// ---------- error discipline (E8)
 	errDisciplineFor(c, "C18")
 }
